@@ -26,6 +26,7 @@ import M4riProofs.MathlibSpec
 import M4riProofs.Top
 import M4riProofs.GenTieSolve
 import M4riProofs.GenTiePleFinal
+import M4riProofs.GenTieGlue
 namespace M4ri.Props.C06
 open M4ri M4ri.BMat
 
@@ -94,5 +95,12 @@ theorem solve_left_end_to_end (L1 L2 L3 : Nat) {A B : BMat} (hA : A.WF) (hB : B.
     L compression) is generated by vlib/ctrans.py on every check; with the recursive calls instantiated by the model at `fuel` it returns
     exactly what `pleRec (fuel + 1)` computes: rank, storage, P, Q (GenTiePle.lean; call contracts derived from `pleRec_spec`) -/
 #check @M4ri.GenTiePle.pleRecStep_pleRec_full
+
+
+/-! ### tie to the C text: `mzd_trtri_upper` (64-bit regime test, SSE2 split, three windows, the two translated TRSM routines, two recursive
+    calls), `_mzd_pluq` and `_mzd_solve_left` are generated by vlib/ctrans.py on every check and proved equal to the model (GenTieGlue.lean) -/
+#check @M4ri.GenTieGlue.solveLeftTop_eq
+#check @M4ri.GenTieGlue.solveLeftTop_pluqFromPle
+#check @M4ri.GenTieGlue.pluqFromPle_eq
 
 end M4ri.Props.C06
